@@ -1,6 +1,7 @@
 pub mod c03;
 pub mod c04;
 pub mod c06;
+pub mod c07;
 pub mod common;
 
 use crate::engine::Tier;
@@ -13,6 +14,7 @@ pub fn run(prop: &str, tier: Tier, seed: u64) -> i32 {
         "C04" => c04::run("C04", tier, seed, &findings),
         "C05" => c04::run("C05", tier, seed, &findings),
         "C06" => c06::run(tier, seed, &findings),
+        "C07" => c07::run(tier, seed, &findings),
         _ => {
             eprintln!("gev: unknown property {}", prop);
             2
@@ -36,6 +38,7 @@ pub fn replay(path: &str) -> i32 {
         "C04" => c04::replay("C04", &v, path, &findings),
         "C05" => c04::replay("C05", &v, path, &findings),
         "C06" => c06::replay(&v, path, &findings),
+        "C07" => c07::replay(&v, path, &findings),
         _ => {
             eprintln!("gev: unknown property in replay file");
             2
